@@ -1026,6 +1026,7 @@ type loopModSet struct {
 	mapObjs    []mapWrite
 	fieldObjs  []fieldWrite
 	allocHeaps map[string]string // heaps that receive freshly allocated objects in the body: name -> sort
+	region     ast.Node          // the statements being analysed (loop body)
 }
 
 type fieldWrite struct {
@@ -1040,7 +1041,7 @@ type mapWrite struct {
 }
 
 func (v *Verifier) loopMods(lp *loopParts) *loopModSet {
-	ms := &loopModSet{vars: map[*types.Var]bool{}, heapKind: map[string]bool{}, bases: map[string][]ast.Expr{}}
+	ms := &loopModSet{vars: map[*types.Var]bool{}, heapKind: map[string]bool{}, bases: map[string][]ast.Expr{}, region: lp.body}
 	for _, o := range lp.extraMod {
 		ms.vars[o.(*types.Var)] = true
 	}
